@@ -122,6 +122,25 @@ impl GenerationPass for AvailableValuePass {
         while changed {
             changed = false;
             for node in cfg.iter() {
+                // A node that is (so far) only reached through nodes that have
+                // not been evaluated yet has nothing to meet: evaluating it
+                // with empty ins would send an "I know nothing" state round a
+                // loop that the real state then chases for ever. It is
+                // evaluated once one of its predecessors has been. (Entries
+                // start a new state of their own and are always evaluated.)
+                if !node.is_any_entry()
+                    && !node.prevs().is_empty()
+                    && !node.prevs().iter().any(|x| visited.contains(x))
+                {
+                    // Nothing is known here (yet); do not keep what an earlier
+                    // run on a different graph may have left behind.
+                    changed |= node.set_reg_values_in(AvailableValueMap::new());
+                    changed |= node.set_memory_values_in(AvailableValueMap::new());
+                    changed |= node.set_reg_values_out(AvailableValueMap::new());
+                    changed |= node.set_memory_values_out(AvailableValueMap::new());
+                    continue;
+                }
+
                 // in[n] = AND out[p] for all p in prev[n]
                 let in_reg_n = node
                     .prevs()
@@ -231,8 +250,9 @@ impl GenerationPass for AvailableValuePass {
                 changed |= node.set_reg_values_out(out_reg_n);
                 changed |= node.set_memory_values_out(out_memory_n);
 
-                // Add node to visited
-                visited.insert(Rc::clone(&node));
+                // Add node to visited. A node that is evaluated for the first
+                // time may let a successor stop waiting: sweep once more.
+                changed |= visited.insert(Rc::clone(&node));
             }
         }
         Ok(())
